@@ -23,41 +23,59 @@ MAX_DEPTH = 4  # bound on the with-stack depth in the abstract state
 
 
 def extract_skeleton(path="/repo/einx/_src/frontend/backend.py"):
-    """{method name: {'locked': bool, 'reads_state': bool, 'writes_state': bool, 'state_method': str}}"""
+    """{method: {'locked': bool, 'reads_state', 'writes_state', 'state_method', 'accesses': [...]}}.
+
+    'locked' means ATOMIC: every load and every store of `self.state` in the method lies inside one single
+    `with self.<...lock...>:` statement. A load outside the lock followed by a store inside it (a "publish"
+    of a copy computed from an unlocked snapshot) is not atomic and is modelled as unlocked."""
     with open(path) as f:
         tree = ast.parse(f.read())
+    state_methods = set()
+    for node in tree.body:
+        if isinstance(node, ast.ClassDef) and node.name == "BackendRegistryState":
+            state_methods = {fn.name for fn in node.body if isinstance(fn, ast.FunctionDef) and not fn.name.startswith("_")}
     out = {}
     for node in tree.body:
         if isinstance(node, ast.ClassDef) and node.name == "BackendRegistry":
             for fn in node.body:
                 if not isinstance(fn, ast.FunctionDef) or fn.name.startswith("__"):
                     continue
-                info = {"locked": False, "reads_state": False, "writes_state": False, "state_method": None, "lock_expr": None}
+                accesses = []  # (kind 'R'|'W', id of the enclosing lock region or None)
+                info = {"state_method": None, "lock_expr": None}
 
-                def visit(stmts, locked):
+                def scan_expr(node_, region):
+                    for sub in ast.walk(node_):
+                        if isinstance(sub, ast.Attribute) and isinstance(sub.value, ast.Name) and sub.value.id == "self" and sub.attr == "state":
+                            accesses.append(("W" if isinstance(sub.ctx, ast.Store) else "R", region))
+                        if isinstance(sub, ast.Call) and isinstance(sub.func, ast.Attribute) and sub.func.attr in state_methods and info["state_method"] is None:
+                            info["state_method"] = sub.func.attr
+
+                def visit(stmts, region):
                     for st in stmts:
                         if isinstance(st, ast.With):
-                            lk = any(isinstance(i.context_expr, ast.Attribute) and isinstance(i.context_expr.value, ast.Name) and i.context_expr.value.id == "self" and "lock" in i.context_expr.attr for i in st.items)
+                            lk = [i for i in st.items if isinstance(i.context_expr, ast.Attribute) and isinstance(i.context_expr.value, ast.Name) and i.context_expr.value.id == "self" and "lock" in i.context_expr.attr]
                             if lk:
-                                info["lock_expr"] = ast.unparse(st.items[0].context_expr)
-                            visit(st.body, locked or lk)
-                            continue
-                        touched = False
-                        for sub in ast.walk(st):
-                            if isinstance(sub, ast.Attribute) and isinstance(sub.value, ast.Name) and sub.value.id == "self" and sub.attr == "state":
-                                touched = True
-                                if isinstance(sub.ctx, ast.Store):
-                                    info["writes_state"] = True
-                                else:
-                                    info["reads_state"] = True
-                            if isinstance(sub, ast.Call) and isinstance(sub.func, ast.Attribute) and isinstance(sub.func.value, ast.Attribute) and sub.func.value.attr == "state":
-                                info["state_method"] = sub.func.attr
-                        if touched and locked:
-                            info["locked"] = True
-                        if isinstance(st, (ast.If, ast.For, ast.While, ast.Try)):
-                            visit(getattr(st, "body", []), locked)
+                                info["lock_expr"] = ast.unparse(lk[0].context_expr)
+                            visit(st.body, id(st) if lk and region is None else region)
+                        elif isinstance(st, (ast.If, ast.For, ast.While)):
+                            scan_expr(st.test if hasattr(st, "test") else st.iter, region)
+                            visit(st.body, region)
+                            visit(st.orelse, region)
+                        elif isinstance(st, ast.Try):
+                            visit(st.body, region)
+                            for h in st.handlers:
+                                visit(h.body, region)
+                            visit(st.orelse, region)
+                            visit(st.finalbody, region)
+                        else:
+                            scan_expr(st, region)
 
-                visit(fn.body, False)
+                visit(fn.body, None)
+                regions = {r for _, r in accesses}
+                info["reads_state"] = any(k == "R" for k, _ in accesses)
+                info["writes_state"] = any(k == "W" for k, _ in accesses)
+                info["locked"] = bool(accesses) and None not in regions and len(regions) == 1
+                info["accesses"] = [(k, "locked" if r is not None else "unlocked") for k, r in accesses]
                 out[fn.name] = info
     return out
 
